@@ -131,7 +131,10 @@ class TapMixin:
         self.step_no += 1
         self.in_step = True
         self._sentinel_next = False    # run() places its stop before the first step
-        head = self._queue[0][-1] if self._queue else None      # (the event is the last field of an agenda entry)
+        try:
+            head = self._queue[0][-1] if self._queue else None  # (the event is the last field of an agenda entry)
+        except Exception:
+            head = None
         try:
             n0 = len(self.log)
             super().step()
@@ -169,6 +172,12 @@ class TapMixin:
                 self.log.append(('P', self.tick(), ps[0], self.now, self.step_no, True, None))
             raise
         except BaseException as e:
+            tb = e.__traceback__
+            while tb is not None and tb.tb_next is not None:
+                tb = tb.tb_next
+            if tb is not None and tb.tb_frame.f_code.co_filename == __file__ and type(e).__name__ != 'Hang':
+                # raised by this wrapper itself: a defect of the harness, not an outcome of the simulated program
+                self.harness_fault = 'tap.step: %r' % (e,)
             self.log.append(('X', self.tick(), self.step_no, san(e)))
             raise
         finally:
